@@ -57,6 +57,7 @@ class Driver:
         self.outs = {u: [] for u in USERS}         # interleaved outputs (code, value) in order
         self.need_snap = []                        # users with an event whose snapshot is still to be taken
         self.in_cancel = {u: False for u in USERS}
+        self.attempts = {u: [] for u in USERS}     # (0 AddUser | 1 RemoveUser, sent ok, number of closes seen) at the network boundary
         self.calls = []                            # (user, op, flag, dead_worker_at_call)
         self.closes = 0
         self.survived_close = {u: False for u in USERS}
@@ -125,8 +126,10 @@ class Driver:
             except asyncio.CancelledError:
                 raise
             except Exception:
+                drv.attempts[name].append((0 if isinstance(m, AddUserReq) else 1, False, drv.events[name].count('ServerClosed')))
                 drv.log(name, 'SendFails')
                 raise
+            drv.attempts[name].append((0 if isinstance(m, AddUserReq) else 1, True, drv.events[name].count('ServerClosed')))
             drv.log(name, 'WorkerStep')
             drv.out(name, (0 if isinstance(m, AddUserReq) else 1, 0))
             if beh in ('exists', 'notexists'):
@@ -342,7 +345,7 @@ def run_script(script):
             snap = d.snapshot(u)
             res['users'][u] = {
                 'events': list(d.events[u]), 'snaps': [list(s) for s in d.snaps[u]], 'outs': [list(o) for o in d.outs[u]],
-                'final': list(snap), 'survived_close': d.survived_close[u],
+                'final': list(snap), 'survived_close': d.survived_close[u], 'attempts': [list(a) for a in d.attempts[u]],
             }
         res['calls'] = [list(c) for c in d.calls]
         res['closes'] = d.closes
@@ -395,6 +398,43 @@ def monitor(script, tr):
         n_add = sum(1 for k in frames if k == 0)
         n_rem = sum(1 for k in frames if k == 1)
         n_timer = sum(1 for e in evs if e == 'TimerFires')
+        # (1a) the AddUser / RemoveUser requests reaching the network boundary are, in order, the changes of the reference set:
+        # one RemoveUser per non-empty -> empty change, one AddUser (plus retries, which repeat it) per empty -> non-empty change.
+        # Per stretch between server disconnects: what was sent is a prefix of what the trajectory asks for (the rest may still
+        # be queued, or was dropped by the disconnect), and it is all of it once the queue has been worked off.
+        seg_exp = {}
+        Rr = 0
+        seg = 0
+        for e in evs:
+            if e.startswith('Track '):
+                f = int(e.split()[1])
+                if Rr == 0 and f:
+                    seg_exp.setdefault(seg, []).append(0)
+                Rr |= f
+            elif e.startswith('Untrack '):
+                f = int(e.split()[1])
+                if Rr and not (Rr & ~f):
+                    seg_exp.setdefault(seg, []).append(1)
+                Rr &= ~f
+            elif e == 'ServerClosed':
+                Rr = 0
+                seg += 1
+        seg_obs = {}
+        for kind, ok, g in U.get('attempts', []):
+            lst = seg_obs.setdefault(g, [])
+            if not (kind == 0 and lst and lst[-1] == 0):      # a repeated AddUser is a retry of the same change
+                lst.append(kind)
+        for g in sorted(set(seg_exp) | set(seg_obs)):
+            exp, obs = seg_exp.get(g, []), seg_obs.get(g, [])
+            last_seg = g == seg
+            complete = last_seg and U['final'][3] == 0 and not U['survived_close'] and not dead_calls_any(tr, u)
+            if obs != exp[:len(obs)] or (complete and len(obs) != len(exp)):
+                names = {0: 'AddUser', 1: 'RemoveUser'}
+                v.append(('requests-do-not-mirror-reason-changes',
+                          f'{u}: the reason set changed {[("empty->non-empty" if k == 0 else "non-empty->empty") for k in exp]} '
+                          f'but the server was sent {[names[k] for k in obs]}' + ('' if g == 0 else f' (after disconnect {g})'),
+                          {'user': u, 'expected': exp, 'sent': obs}))
+                break
         # (1) every frame is justified by a change of the set (or a retry expiry)
         if n_add > trans.count('A') + n_timer:
             v.append(('unjustified-adduser', f'{u}: {n_add} AddUser frames for {trans.count("A")} empty->non-empty changes and {n_timer} retry expiries', {'user': u}))
@@ -434,6 +474,10 @@ def monitor(script, tr):
     if tr['unhandled']:
         v.append(('unhandled-loop-error', f'event loop exception handler called: {tr["unhandled"][:2]}', {}))
     return v
+
+
+def dead_calls_any(tr, u):
+    return any(c[0] == u and c[3] for c in tr['calls'])
 
 
 def retry_reason_check(tr):
@@ -491,6 +535,7 @@ def gen_script(rng, max_calls=8):
     ops = []
     ncalls = rng.randrange(1, max_calls + 1)
     closed = False
+    burst = 0
     for c in range(ncalls):
         u = rng.randrange(nusers)
         f = rng.choice([1, 1, 2, 4, 3, 5, 7])
@@ -499,6 +544,11 @@ def gen_script(rng, max_calls=8):
             ops.append(['track', u, f])
         else:
             ops.append(['untrack', u, f if rng.random() < 0.7 else 7])
+        if burst == 0 and rng.random() < 0.3:
+            burst = rng.choice([1, 2, 3])       # the next calls are issued in the same loop iteration (no step in between)
+        if burst:
+            burst -= 1
+            continue
         r = rng.random()
         if r < 0.55:
             ops.append(['step', rng.choice([1, 1, 1, 2, 2, 3, 4, 5, 6, 8])])
@@ -535,6 +585,13 @@ def directed_scripts(tier):
             p = {'bob': ['notexists', 'exists']}
             out.append({'policy': p, 'ops': [['track', 0, 1], ['step', 9], ['close'], ['step', j], ['untrack', 0, 1], ['track', 0, 4], ['step', k]],
                         'settle_rounds': 2})
+    # bursts: several requests enqueued in one iteration, so the queue is not empty when the worker handles n -> 0
+    for k in (0, 1, 2, 4, 7):
+        for second in (['track', 0, 2], ['untrack', 0, 2], ['track', 0, 1], ['untrack', 0, 1]):
+            out.append({'policy': pol, 'ops': [['track', 0, 1], ['step', 8], ['untrack', 0, 1], second, ['step', k], ['track', 0, 4], ['step', 2]], 'settle_rounds': 1})
+        out.append({'policy': pol, 'ops': [['track', 0, 4], ['track', 0, 2], ['step', 8], ['untrack', 0, 4], ['untrack', 0, 2], ['track', 0, 2], ['step', k], ['untrack', 0, 2]],
+                    'settle_rounds': 1})
+        out.append({'policy': pol, 'ops': [['track', 0, 1], ['untrack', 0, 1], ['track', 0, 1], ['untrack', 0, 1], ['step', k], ['track', 0, 2]], 'settle_rounds': 1})
     # retry expiry with and without a remaining reason
     out.append({'policy': {'bob': ['silence', 'exists']}, 'ops': [['track', 0, 1], ['step', 5], ['adv', 10.5], ['step', 6], ['adv', 10.5], ['step', 8]], 'settle_rounds': 0})
     out.append({'policy': {'bob': ['sendfail', 'notexists', 'exists']}, 'ops': [['track', 0, 1], ['step', 5], ['adv', 10.5], ['step', 8], ['untrack', 0, 1], ['step', 5], ['adv', 601], ['step', 5]], 'settle_rounds': 1})
